@@ -57,7 +57,11 @@ def decompile(arg: dict) -> dict:
             text, sm = SsbScriptSsbDecompiler(infos, ops, coros).convert()
         else:
             from explorerscript.ssb_converting.ssb_decompiler import ExplorerScriptSsbDecompiler
-            text, sm = ExplorerScriptSsbDecompiler(infos, ops, coros, arg.get("perf", PERF_VAR), DungeonModeConstants(*DMODE)).convert()
+            dec = ExplorerScriptSsbDecompiler(infos, ops, coros, arg.get("perf", PERF_VAR), DungeonModeConstants(*DMODE))
+            text, sm = dec.convert()
+            if arg.get("twice"):
+                # the answer of a second convert() of the same object is an answer of the decompiler like the first
+                text, sm = dec.convert()
     except BaseException as e:  # noqa
         return _exc(e)
     return {"text": text, "source_map": sm_json(sm), "input_after": rsjson.rs_to_json(infos, ops, [None] * len(infos))}
